@@ -35,6 +35,7 @@ inductive Ev
   | callFinish | hsDone | finishOk | finishFail
   | close                -- any close cause on the current connection: EOF, reset, protocol error, peer disconnect,
                          -- disconnect() / disconnect(force=True), ping timeout
+  | disconnect           -- `disconnect(force=True)`: synchronous; whatever connection is attached is closed when it returns
   | api                  -- any command / subscription / request (goes through `_get_connection`)
   | closure              -- an unsubscribe / stop closure returned in an earlier session
 deriving Repr
@@ -73,6 +74,14 @@ def step (s : State) : Ev → State
     | some .finishing => { s with conn := some .closedFinish }
     | some .hello => { s with conn := some .closedFinish }
     | some .connected => { s with conn := none }                          -- on_stop → `_on_stop` detaches
+    | _ => s
+  | .disconnect =>
+    match s.conn with
+    | some .starting => { s with conn := some .closedStart }
+    | some .opened => { s with conn := some .closedIdle }
+    | some .finishing => { s with conn := some .closedFinish }
+    | some .hello => { s with conn := some .closedFinish }
+    | some .connected => { s with conn := none }
     | _ => s
   | .api =>
     if s.conn = some .connected then { s with writes := s.writes + 1, last := .ok } else { s with last := .connError }
